@@ -307,6 +307,10 @@ def run(ctx):
     for i, sh in enumerate(shapes):
         check_cuts(ctx, sh, i)
     check_tx_one_batch(ctx)
+    # all-or-nothing also needs the batch to be applied as one unit of the journal order: every apply and the publish under one hold of the journal lock
+    # (otherwise a memtable rotation can land inside the batch and recovery, which skips records covered by tables, replays only part of it)
+    from . import c06
+    c06.check_atomic_publish(ctx, 2)
     for o in ctx.obligations:
         ctx.samples.append(o.as_dict())
     return ctx.finish()
